@@ -27,7 +27,7 @@ QFLAGS = "-Q ../base FlacBase -Q . FlacUpdIo"
 E2E_THEOREMS = ["C10_real_codec_hypotheses", "C10_readers_agree", "C10_real_codec_inplace", "C10_real_codec_rebuilt",
                 "C10_real_codec_history", "C10_real_codec_same_decoding", "C10_real_codec_no_panic", "C10_real_codec_writer_no_panic", "C10_real_codec_example_inplace",
                 "C10_real_codec_example_rebuilt", "C10_real_codec_example_hypotheses", "C10_written_then_edited_lossless",
-                "C10_byte_written_then_edited_lossless", "C10_channel_written_then_edited_lossless", "C10_written_edited_then_read", "C10_byte_written_edited_then_read", "C10_channel_written_edited_then_read", "C10_written_then_edited_valid"]
+                "C10_byte_written_then_edited_lossless", "C10_channel_written_then_edited_lossless", "C10_written_edited_then_read", "C10_byte_written_edited_then_read", "C10_channel_written_edited_then_read", "C10_written_then_edited_valid", "C10_byte_written_then_edited_valid", "C10_channel_written_then_edited_valid"]
 
 
 def proof_stage(chk, theorems, requires_extra=(), composed=False, composed_theorems=None, composed_requires=None):
